@@ -114,4 +114,97 @@ theorem rotateSegments_init_lead {st : State} {L : Nat} (hg : GI st L) (hv : st.
         · simp only [setStream_streams, List.length_set, length_of_set hsk, hlen])
   rw [this.1, h1]
 
+
+/-! ## every stream: the fold over the streams in `rotateSegments` -/
+
+/-- a fold over the stream indices whose step `j` touches only stream `j` and only the value `val · j`:
+afterwards `val · si` is what step `si` produced, on an intermediate state that still had the original stream `si` -/
+theorem fold_range_val {β : Type} (F : State → Nat → State) (val : State → Nat → β)
+    (R : State → State → Prop) (Rrefl : ∀ a, R a a) (Rtrans : ∀ a b c, R a b → R b c → R a c)
+    (hF : ∀ s j, j < s.streams.length → R s (F s j) ∧ (F s j).streams.length = s.streams.length ∧
+      (∀ i, i ≠ j → (F s j).stream i = s.stream i) ∧ (∀ i, i ≠ j → val (F s j) i = val s i))
+    (st : State) : ∀ n, n ≤ st.streams.length →
+      ((List.range n).foldl F st).streams.length = st.streams.length ∧ R st ((List.range n).foldl F st) ∧
+      (∀ j, n ≤ j → ((List.range n).foldl F st).stream j = st.stream j) ∧
+      ∀ si, si < n → ∃ st', R st st' ∧ st'.streams.length = st.streams.length ∧
+        (∀ j, si ≤ j → st'.stream j = st.stream j) ∧ val ((List.range n).foldl F st) si = val (F st' si) si := by
+  intro n
+  induction n with
+  | zero =>
+    intro _
+    simp only [List.range_zero, List.foldl_nil]
+    exact ⟨trivial, Rrefl st, fun _ _ => trivial, fun si h => absurd h (Nat.not_lt_zero _)⟩
+  | succ n ih =>
+    intro hn
+    obtain ⟨hlen, hR, hge, hlt⟩ := ih (Nat.le_of_succ_le hn)
+    rw [List.range_succ, List.foldl_append]
+    simp only [List.foldl_cons, List.foldl_nil]
+    have hnl : n < ((List.range n).foldl F st).streams.length := by rw [hlen]; exact hn
+    obtain ⟨r1, r2, r3, r4⟩ := hF ((List.range n).foldl F st) n hnl
+    refine ⟨r2.trans hlen, Rtrans _ _ _ hR r1, ?_, ?_⟩
+    · intro j hj; rw [r3 j (by omega)]; exact hge j (by omega)
+    · intro si hsi
+      by_cases hsn : si = n
+      · subst hsn
+        exact ⟨_, hR, hlen, fun j hj => hge j hj, rfl⟩
+      · obtain ⟨st', h1, h2, h3, h4⟩ := hlt si (by omega)
+        exact ⟨st', h1, h2, h3, by rw [r4 si hsn]; exact h4⟩
+
+theorem frame_params {a b : State} (h : Frame a b) (t : Nat) : (b.track t).params = (a.track t).params := by
+  rcases h.2.1 t with e | e <;> rw [e]; rfl
+
+/-- **after a rotation every stream's init carries the current parameters**: muxer level, any stream `si` whose
+open segment was opened by a forced rotation (or that has no init yet) -/
+theorem rotateSegments_init_all {st : State} {L : Nat} (hg : GI st L) (hv : st.cfg.variant ≠ .mpegts)
+    (si : Nat) (hsi : si < st.streams.length)
+    {o : Seg} {p : Part} (ho : (st.stream si).nextSegment = some o) (hp : (st.stream si).nextPart = some p)
+    (hf : (st.stream si).initPresent = false ∨ o.forced = true) (d n : Int) (f : Bool) :
+    lookupPath (rotateSegments st d n f).paths (.init si) =
+      some (.init ((st.stream si).tracks.map fun t => (st.track t).params)) := by
+  by_cases hL : si = L
+  · subst hL; exact rotateSegments_init_lead hg hv ho hp hf d n f
+  rw [rotateSegments_eq, hg.leadingStream]
+  unfold leadThenOthers
+  simp only
+  have hs1 := rss_streams st L d n f hg.lt
+  have hlen1 : (rotateSegmentsStream st L d n f).streams.length = st.streams.length := length_of_set hs1
+  have hf1 : Frame st (rotateSegmentsStream st L d n f) := rss_frame st L d n f
+  obtain ⟨_, _, _, hlt⟩ := fold_range_val (fun st si =>
+      if (st.stream si).isLeading then st
+      else (rotateSegmentsStream st si d n f).setStream si
+        { (rotateSegmentsStream st si d n f).stream si with
+          targetDur := ((rotateSegmentsStream st si d n f).stream L).targetDur,
+          partTargetDur := ((rotateSegmentsStream st si d n f).stream L).partTargetDur })
+    (fun s i => lookupPath s.paths (.init i)) Frame Frame.refl (fun _ _ _ => Frame.trans)
+    (by
+      intro s j hj
+      by_cases hl : (s.stream j).isLeading = true
+      · simp only [hl, if_true]
+        exact ⟨Frame.refl _, trivial, fun _ _ => trivial, fun _ _ => trivial⟩
+      · simp only [hl, if_false, Bool.false_eq_true]
+        have hsj := rss_streams s j d n f hj
+        refine ⟨Frame.trans (rss_frame s j d n f) ⟨⟨rfl, rfl, rfl, rfl, rfl⟩, fun _ => Or.inl rfl, rfl⟩, ?_, ?_, ?_⟩
+        · simp only [setStream_streams, List.length_set, length_of_set hsj]
+        · intro i hi
+          rw [stream_of_set_other (st := rotateSegmentsStream s j d n f) rfl hi, stream_of_set_other hsj hi]
+        · intro i hi
+          show lookupPath (rotateSegmentsStream s j d n f).paths (.init i) = _
+          exact rss_init_other s i j d n f hi)
+    (rotateSegmentsStream st L d n f) (rotateSegmentsStream st L d n f).streams.length (Nat.le_refl _)
+  obtain ⟨st', h1, h2, h3, h4⟩ := hlt si (by rw [hlen1]; exact hsi)
+  rw [h4]
+  -- the intermediate state still has the original stream `si`
+  have es : st'.stream si = st.stream si := (h3 si (Nat.le_refl _)).trans (stream_of_set_other hs1 hL)
+  have hfr : Frame st st' := Frame.trans hf1 h1
+  have hnl : ¬ (st'.stream si).isLeading = true := by
+    rw [es]; intro hc; exact hL ((hg.lead si hsi).1 hc)
+  simp only [hnl, if_false, Bool.false_eq_true]
+  show lookupPath (rotateSegmentsStream st' si d n f).paths (.init si) = _
+  have hsi' : si < st'.streams.length := by rw [h2, hlen1]; exact hsi
+  rw [rss_init hsi' (by rw [hfr.cfg]; exact hv) (by rw [es]; exact ho) (by rw [es]; exact hp) (by rw [es]; exact hf) d n f, es]
+  congr 2
+  apply List.map_congr_left
+  intro t _
+  exact frame_params hfr t
+
 end Hls.Muxer
